@@ -3,6 +3,7 @@ package main
 import (
 	"fmt"
 	"go/token"
+	"regexp/syntax"
 	"sort"
 	"strings"
 
@@ -74,6 +75,7 @@ func checkC06(c *Check) {
 	c.Rule("polarity-and-constants")
 	c.Rule("exactly-one-event: every nil-returning path of an entry function that avoids the emit is the no-match or non-numeric-PID exit")
 	c.Rule("group-alphabet-adequacy")
+	c.Rule("free-text-boundary: a Username/UserID group whose closing delimiter can also be consumed later in the pattern is greedy")
 	c.Trust("regexp sub-match contract", "time.Now() is read while the line is processed (ProcessSshdLogEntry)")
 	d := FindDispatch(p)
 	if !c.Anchor("sshd dispatcher", d != nil) {
@@ -419,8 +421,71 @@ func checkC06(c *Check) {
 		}
 	}
 	c.Floor("named groups examined", 45, nalpha)
+
+	// 7. free text first, structured fields appended: the account name and
+	// the certificate key ID are chosen outside sshd and printed before the
+	// fields sshd appends. When the delimiter that ends such a group can
+	// also be consumed further on in the pattern the split is ambiguous, and
+	// only a greedy group takes the last delimiter, the one sshd appended
+	nfree := 0
+	for _, rv := range sortedRegexVars(rxm) {
+		if rv.Tree == nil || rv.Tree.Op != syntax.OpConcat {
+			continue
+		}
+		seq := rv.Tree.Sub
+		for i, n := range seq {
+			if n.Op != syntax.OpCapture || !freeTextFirstGroup[n.Name] {
+				continue
+			}
+			rc := groupRep(n)
+			if !rc.OK || rc.Max >= 0 {
+				continue
+			}
+			j := i + 1
+			delim := ""
+			for j < len(seq) && seq[j].Op == syntax.OpLiteral {
+				delim += string(seq[j].Rune)
+				j++
+			}
+			if delim == "" {
+				continue
+			}
+			inGroup := true
+			for _, ch := range delim {
+				if !rc.Contains(ch) {
+					inGroup = false
+				}
+			}
+			ambiguous := false
+			for _, t := range seq[j:] {
+				all := true
+				for _, ch := range delim {
+					if !canConsume(t, ch) {
+						all = false
+					}
+				}
+				if all {
+					ambiguous = true
+				}
+			}
+			nfree++
+			key := rv.Name + " group " + n.Name
+			switch {
+			case !inGroup || !ambiguous:
+				c.OK("free-text-boundary", key, p.InstrPos(rv.Store), fmt.Sprintf("the delimiter %q cannot occur both in the group and after it: one split only", delim))
+			default:
+				c.Cond(rc.Greedy, "free-text-boundary", key, p.InstrPos(rv.Store), fmt.Sprintf("greedy: the last %q, the one sshd appended, ends the group", delim), fmt.Sprintf("the group is lazy and ends at the first %q although the value itself may contain it: the fields after it are taken from inside the value, not from what sshd appended. Pattern `%s`", delim, rv.Pattern))
+			}
+		}
+	}
+	c.Floor("free-text groups followed by a delimiter", 12, nfree)
 	_ = token.ADD
 }
+
+// freeTextFirstGroup: groups holding text chosen outside sshd (account name
+// sent by the client, key ID chosen by the signer) that sshd prints before the
+// fields it appends itself.
+var freeTextFirstGroup = map[string]bool{"Username": true, "UserID": true}
 
 // allowedEarlyExit: the return is guarded by "pattern did not match" or
 // "PID token is not numeric".
